@@ -4603,7 +4603,9 @@ func vlValueCorpus(w *hx.Writer) {
 	}{{vlTS, "hello", vlCStr("hello")}, {vlTS, "a b", vlCStr("a b")}, {vlTS, "007", vlCStr("007")}, {vlTS, "TRUE", vlCStr("TRUE")}, {vlTI, "42", vlCInt(42)}, {vlTD, "2.5", vlCDec("2.5")},
 		{vlTB, "true", vlCBool(true)}, {vlTLS, "[a,b]", vlCList(vlCStr("a"), vlCStr("b"))}, {vlTLI, "[1,2,3]", vlCList(vlCInt(1), vlCInt(2), vlCInt(3))},
 		{vlTMA, "map[a:1 b:[x,y] c:map[d:e]]", vlCMap(map[string]*vlCval{"a": vlCInt(1), "b": vlCList(vlCStr("x"), vlCStr("y")), "c": vlCMap(map[string]*vlCval{"d": vlCStr("e")})})},
-		{vlTS, "'q'", vlCStr("'q'")}} {
+		{vlTS, "'q'", vlCStr("'q'")},
+		// (tenth round) blanks at the edges of a literal belong to it: the tag text is bound as written
+		{vlTS, " padded ", vlCStr(" padded ")}, {vlTS, "trail ", vlCStr("trail ")}, {vlTS, " lead", vlCStr(" lead")}, {vlTS, " two  words ", vlCStr(" two  words ")}} {
 		c := &vlVcase{kind: "V3", t: l.t, cfg: vlCMap(map[string]*vlCval{"k": l.v}), subject: l.v, literal: true,
 			tags: [][]vlTnode{{vlTLit(l.lit)}, {vlTLit("k")}, {vlTLit("k")}}, labels: []string{"corpus", "literal"}}
 		vlRunCase(c, w)
